@@ -241,10 +241,13 @@ prop('C14', 'exploration',
      q, t)
 
 q, t = std_stages('anydata', 12000, 300000, enum=True)
+# which constructor a braced initialisation selects differs between g++ and clang++ (CWG 2137): the table is also run as built by g++
+q['stages'].append(dict(engine='rc', harness='anydata', variant='gxx', procs=8, cases=3000, timeout=900))
+t['stages'].append(dict(engine='rc', harness='anydata', variant='gxx', procs=16, cases=50000, timeout=3600))
 prop('C17', 'exploration',
-     'type table P<N,kind>: N in {1,2,4,7,8,15,16,17,23,24,25,31,32,33,63,64,65,100,256} x kind in {trivial bytes, ledgered copy+move, ledgered move-only, shared_ptr holder, trivial copy with user-provided move} x AnyData capacities {1 (=16), 24, 32, 64}, '
-     'so every capacity has N = M-1, M, M+1. Bounded-exhaustive: every (N, kind, capacity, construction form) with a fixed move/queue script (912 cases); random: generated chains of moves, reads and EventQueue round trips with '
-     'slots recycled between payloads of very different size. Oracle: value equality, stable address, conversions, isType true exactly for the stored type, <=1 move and no copy of the held object per AnyData move (the counted copyable type has a potentially-throwing move constructor, the shared_ptr holder a noexcept one), no copy when a temporary is enqueued, move-only never copied, use_count unchanged by a move, ledger exactly-once, ASan/UBSan; '
+     'type table P<N,kind>: N in {1,2,4,7,8,15,16,17,23,24,25,31,32,33,63,64,65,100,256} x kind in {trivial bytes, ledgered copy+move, ledgered move-only, shared_ptr holder, trivial copy with user-provided move, initializer_list constructor over itself} x AnyData capacities {1 (=16), 24, 32, 64}, '
+     'so every capacity has N = M-1, M, M+1. Bounded-exhaustive: every (N, kind, capacity, construction form) with a fixed move/queue script (1368 cases); random: generated chains of moves, reads and EventQueue round trips with '
+     'slots recycled between payloads of very different size. Built with clang++ and with g++ (they differ in which constructor a braced initialisation selects). Oracle: value equality, stable address, conversions, isType true exactly for the stored type, <=1 move and no copy of the held object per AnyData move (the counted copyable type has a potentially-throwing move constructor, the shared_ptr holder a noexcept one), no copy when a temporary is enqueued, move-only never copied, use_count unchanged by a move, ledger exactly-once, ASan/UBSan; '
      'non-trivial = size within +-1 of the capacity or beyond it, a non-trivial kind, and >=2 moves or a queue round trip',
      COMMON_ASSUME + ['over-aligned types (alignment > 8) are outside the table', 'takeEvent/peekEvent are not generated: AnyData is not assignable, so QueuedEvent cannot be taken by value'],
      q, t)
